@@ -9,7 +9,7 @@
    FULL STATEMENT (refuted): for every tree t and every command history cs not aimed at the root,
        srv_run m_run (None, t) cs = srv_run p_run (None, t) cs  and failing commands are inert.
    It fails on four shapes, each with a vm_compute witness below that the harness replays against
-   three real servers (known_findings.json F6, F7a, F7b, F15).  What is proved is the statement for
+   three real servers (known_findings.json F06, F07a, F07b, F17).  What is proved is the statement for
    every history that avoids those shapes (`shapes_ok`, decided on the state the history reaches). *)
 From Coq Require Import ZArith List Bool.
 From Verif Require Import Lib.Sx Model.FsBase Model.MemFS Model.PosixFS Model.BackendSrv
@@ -22,8 +22,8 @@ Open Scope Z_scope.
 (* Same replies (codes and transferred payload) and same tree after every command, on both backends,
    and a command that fails changes nothing on either -- for every tree with unique names, every
    pending rename_from, every history whose steps avoid: a mutation aimed at the root itself,
-   REST n>0 + STOR/APPE to a missing file (F6), RNTO below a file / into the source's own subtree (F7),
-   RNTO onto the vanished source's own path (F15). *)
+   REST n>0 + STOR/APPE to a missing file (F06), RNTO below a file / into the source's own subtree (F07),
+   RNTO onto the vanished source's own path (F17). *)
 Theorem C18_backends_agree_partial : forall cs rf t,
   wf t -> shapes_ok (rf, t) cs = true ->
   srv_run m_run (rf, t) cs = srv_run p_run (rf, t) cs
@@ -77,7 +77,7 @@ Proof. exact unlink_agree. Qed.
 Print Assumptions C18_dele_agree.
 
 (* RNTO: destination does not exist (path_must_not_exists); the source may or may not still exist;
-   source <> destination and not one of the two F7 shapes *)
+   source <> destination and not one of the two F07 shapes *)
 Theorem C18_rnto_agree : forall t a b,
   wf t -> a <> [] -> lookup b t = None -> path_eqb a b = false -> rename_bad t a b = false ->
   step_agree (m_run t (Rename a b)) (p_run t (Rename a b)).
